@@ -135,6 +135,45 @@ def run_mcs(pid, tier, outdir):
     return res, errors
 
 
+def run_machine_replay(pid, tier, outdir, profile):
+    """Spec -> impl: export every transition of the bounded API machine (mc/MC_Machine) as a
+    one-step script and replay the ones that belong to this property on the real types."""
+    spec = PROPS[pid]
+    rp = spec.get("machine_ops")
+    if not rp:
+        return [], [], []
+    cfgs = ["MC_Machine_n2.cfg"] + (["MC_Machine_n3.cfg"] if tier == "thorough" else [])
+    res, errors, mism = [], [], []
+    for cfg in cfgs:
+        name = cfg.replace(".cfg", "")
+        meta = os.path.join(outdir, "meta_" + name)
+        logp = os.path.join(outdir, "mc_%s.log" % name)
+        r = tlc.run_mc("MC_Machine.tla", cfg, meta, logp, workers=6, timeout=3600)
+        shutil.rmtree(meta, ignore_errors=True)
+        r["name"] = name
+        res.append(r)
+        if not r["ok"]:
+            errors.append("machine exploration %s failed (see %s)" % (name, logp))
+            continue
+        scripts = os.path.join(outdir, name + "_scripts.ndjson")
+        n = 0
+        with open(logp, errors="replace") as f, open(scripts, "w") as out:
+            for line in f:
+                if line.startswith('"SCRIPT '):
+                    out.write(json.loads(line.strip())[len("SCRIPT "):] + "\n")
+                    n += 1
+        mm = os.path.join(outdir, name + "_mismatch.ndjson")
+        rr = vdrive(profile, ["replay", scripts, mm, "--ops", ",".join(rp)])
+        log("[replay] %s: %d transitions exported, %s" % (name, n, rr))
+        r["replayed"] = rr["scripts"]
+        with open(mm) as f:
+            for line in f:
+                mism.append(json.loads(line))
+        os.remove(scripts)
+        os.remove(logp) if r["ok"] else None
+    return res, errors, mism
+
+
 def write_evidence(pid, tier, seed, wall, cov, assumptions, nviol):
     os.makedirs(EVID, exist_ok=True)
     ev = {"property_id": pid, "tier": tier, "seed": seed, "level": "model_checking", "coverage": cov,
@@ -213,6 +252,16 @@ def run_property(pid, tier, seed, replay=None):
     if not phases:
         phases = [{"gen": pid, "runs": [(p, "both") for p in profiles],
                    "validate": [(i, None) for i in range(len(profiles))]}]
+    if replay and '"call"' in open(replay).readline():
+        mm = os.path.join(outdir, "mismatch.ndjson")
+        rr = vdrive(profiles[0], ["replay", replay, mm])
+        log("[replay] %s" % rr)
+        n = 0
+        for line in open(mm):
+            n += 1
+            log("VIOLATION property=%s replay=%s" % (pid, replay))
+            log("  " + "; ".join(json.loads(line)["problems"])[:400])
+        return 1 if n else 0
     if replay:
         phases = [dict(phases[0], script=replay)] if len(phases) == 1 else [dict(ph, script=replay) for ph in phases[:1]]
     scripts = []
@@ -252,6 +301,16 @@ def run_property(pid, tier, seed, replay=None):
         mc_res, errs = mc_future.result()
         tool_errors += errs
     mc_pool.shutdown()
+    replayed = 0
+    if not replay:
+        mres, errs, mism = run_machine_replay(pid, tier, outdir, profiles[0])
+        tool_errors += errs
+        mc_res += mres
+        replayed = sum(r.get("replayed", 0) for r in mres)
+        for m in mism:
+            viol_records.append({"profile": profiles[0], "chunk": None, "line": 0, "op": m["script"]["call"]["op"],
+                                 "why": "; ".join(m["problems"])[:300], "episode": [json.dumps(m["script"])],
+                                 "event": m["script"]["call"], "queries": []})
     if spec.get("post_filter"):
         viol_records = spec["post_filter"](viol_records, profiles[0], log)
     # report
@@ -292,6 +351,7 @@ def run_property(pid, tier, seed, replay=None):
     cov = {
         "states": max(states, 1), "transitions": max(trans, 1),
         "traces_validated_against_impl": neps - nskip,
+        "spec_transitions_replayed_on_impl": replayed,
         "samples": sample_events(all_chunks, strict_ops) or [{"note": "no strict event"}],
         "evaluations": total, "distinct_nontrivial": nontriv, "distinct_events": distinct,
         "strict_checks_by_tlc": nchk, "episodes_skipped_setup_failed": nskip,
